@@ -262,7 +262,7 @@ def _norm_trace(trace, case):
                 t = types[argno] if argno < len(types) else (types[-1] if (variadic and types) else '')
                 if variadic and types and argno >= len(types) - 1:
                     t = types[-1]
-                if t == 'f32':
+                if t in ('f32', 'Nf32'):
                     f32.add(i)
                 i = skip(i)
                 argno += 1
@@ -462,6 +462,16 @@ def check(V, pid, tier, seed):
     n_obl = len(names) + len([o for o in cfg['obligations'] if not o.startswith('Props/')])
     n_dis = (len(names) if 'Props/%s.vo' % pid not in broken else 0) + \
         len([o for o in cfg['obligations'] if not o.startswith('Props/') and o not in broken])
+    # 1b. thorough tier: the independent checker re-checks the compiled property file and everything it depends on,
+    # and lists the axioms of the whole context
+    coqchk = None
+    if tier == 'thorough' and 'Props/%s.vo' % pid not in broken:
+        coqchk = V.run_coqchk('Props.' + pid)
+        n_obl += 1
+        if coqchk['ok']:
+            n_dis += 1
+        else:
+            broken.append('coqchk Props/%s.vo: %s' % (pid, coqchk['summary']))
     # 2. correspondence + oracles
     viol = []        # definitive failing inputs
     corr = []        # correspondence-only differences
@@ -556,6 +566,8 @@ def check(V, pid, tier, seed):
     trusted = list(COMMON_TRUST) + cfg.get('trust', [])
     for n in names:
         trusted.append('Print Assumptions %s: %s' % (n, axioms.get(n, 'not available (obligation broken)')))
+    if coqchk is not None:
+        trusted.append('coqchk -silent -o Formula.Props.%s (%.0f s): %s' % (pid, coqchk['seconds'], coqchk['summary']))
     ev = dict(property_id=pid, tier=tier, seed=seed, level='proof',
               coverage=dict(obligations=max(n_obl, 1), discharged=n_dis,
                             checker_cmd='make -k -j16 in /verif/coq (coqc 8.16.1, full .vo build) ; bin/vcheck %s %s' % (pid, tier),
